@@ -72,7 +72,9 @@ def build(cfg):
     shells = []
     for i, (l, ei, M) in enumerate(spec):
         e = EXPSETS[ei]
-        sh = RefShell(l, pos, e, al.coeffs(len(e), M, rot=i), cfg["types"][i])
+        # atom-index labels: none / all equal (bases from separate make_contractions calls joined) / alternating
+        ic = [None, 0, i % 2][(cfg["n"] + cfg["set"] + len(cfg["types"][0])) % 3]
+        sh = RefShell(l, pos, e, al.coeffs(len(e), M, rot=i), cfg["types"][i], icenter=ic)
         if i > 0:
             prev = shells[-1]
             if f == "zero":
